@@ -174,10 +174,12 @@ func AddStandardFilters(fd FilterDictionary) { //nolint: gocyclo
 		return s + suffix
 	})
 	fd.AddFilter("capitalize", func(s, suffix string) string {
-		if len(s) == 0 {
+		// upper-case the first character, not the first byte
+		r, n := utf8.DecodeRuneInString(s)
+		if n == 0 || r == utf8.RuneError {
 			return s
 		}
-		return strings.ToUpper(s[:1]) + s[1:]
+		return string(unicode.ToUpper(r)) + s[n:]
 	})
 	fd.AddFilter("downcase", func(s, suffix string) string {
 		return strings.ToLower(s)
